@@ -1,3 +1,3 @@
 #!/bin/sh
 cd /verif; . ./env.sh
-for id in $(bin/scionvet -list); do bin/scionvet -prop $id -selftest 2>&1 | grep -E "^selftest|unkilled|wrong-report|broken|false-alarm" | cut -c1-250; done
+for id in $(bin/scionvet -list); do bin/scionvet -prop $id -selftest 2>&1 | grep -E "^selftest|unkilled|wrong-report|broken|false-alarm|inapplicable" | cut -c1-250; done
